@@ -1,6 +1,7 @@
 package main
 
 import (
+	"go/token"
 	"strings"
 
 	"golang.org/x/tools/go/ssa"
@@ -63,7 +64,7 @@ func c04Conditions(r *R) {
 		}
 		for _, ret := range retGlobal(fn, "os.ErrNotExist") {
 			ok := GuardOrPass(fn, nil, ret, nil,
-				EqC("len(files) == 0", lenVP, ConstIntVP(0)),
+				IntC("len(files) == 0", lenVP, token.EQL, 0, true),
 				FalseC("foundTrash", func(v ssa.Value) bool {
 					_, isPhi := Strip(v).(*ssa.Phi)
 					return isPhi && typeString(v.Type()) == "bool"
